@@ -147,7 +147,7 @@ def run(tier):
         if len(ys) != 1:
             continue
         y = ys[0]
-        combos += [(f"{k_}e{s_}-ol", f"{y}-ol"), (f"{k_}e{s_}-onic", f"{y}-onic"), (f"1,6-Anhydro-{k_}e{s_}", f"1,6-Anhydro-{y}"),
+        combos += [(f"{k_}e{s_}-ol", f"{y}-ol"), (f"{k_}e{s_}-onic", f"{y}-onic"), (f"{k_}e{s_}-aric", f"{y}-aric"), (f"{s_}{k_}e-aric", f"{y}-aric"), (f"1,6-Anhydro-{k_}e{s_}", f"1,6-Anhydro-{y}"),
                    (f"Gal(b1-3){k_}e{s_}-ol", f"Gal(b1-3){y}-ol")]
         if k_ != 3:
             combos.append((f"3,6-Anhydro-{k_}e{s_}", f"3,6-Anhydro-{y}"))
